@@ -361,6 +361,29 @@ def witness_search(tier, seed):
             exp = {g.OrphanedNotes.RAISE_EXCEPTION: "raised", g.OrphanedNotes.KEEP_ORPHAN: sorted(plain + [inner]), g.OrphanedNotes.DROP_ORPHAN: plain}[opt]
             if got != exp:
                 return dict(input=dict(grouped=[[repr(a), repr(b)], [repr(inner)]], option=str(opt)), detail=f"got {got!r}; the statement prescribes {exp!r}")
+    for opt in g.OrphanedNotes:
+        outer = g.NoteWithTail(Beat(0), 0, T.HOLD_HEAD, Beat(6), 0, None)
+        inner_hold = g.NoteWithTail(Beat(1), 0, T.ROLL_HEAD, Beat(2), 0, None)
+        late = n.Note(Beat(4), 0, T.TAP, 0, None)
+        try:
+            got = list(g.ungroup_notes([[outer], [inner_hold], [late]], orphaned_notes=opt))
+        except g.OrphanedNoteException:
+            got = "raised"
+        a_head, a_tail = n.Note(Beat(0), 0, T.HOLD_HEAD, 0, None), n.Note(Beat(6), 0, T.TAIL, 0, None)
+        b_head = n.Note(Beat(1), 0, T.ROLL_HEAD, 0, None)
+        # what the statement fixes here: the outer hold survives; the notes lying inside it on its column (the inner head, the
+        # later tap - still inside the outer hold after the inner tail has gone) raise / pass through / are dropped
+        if opt == g.OrphanedNotes.RAISE_EXCEPTION:
+            ok = got == "raised"
+        elif got == "raised":
+            ok = False
+        elif opt == g.OrphanedNotes.KEEP_ORPHAN:
+            ok = a_head in got and a_tail in got and b_head in got and late in got
+        else:
+            ok = a_head in got and a_tail in got and b_head not in got and late not in got
+        if not ok:
+            return dict(input=dict(grouped=[[repr(outer)], [repr(inner_hold)], [repr(late)]], option=str(opt)),
+                        detail=f"got {got!r}: every note inside the outer hold on its column follows the option for as long as that hold lasts")
     for ks in (None, 7):
         for opt in g.OrphanedNotes:
             item = g.NoteWithTail(Beat(1), 2, T.HOLD_HEAD, Beat(3), 1, ks)
